@@ -446,10 +446,12 @@ impl ArpPacket {
             hw_addr_size: start[4],
             proto_addr_size: start[5],
             operation: ArpOperation(u16::from_be_bytes([start[6], start[7]])),
-            sender_hw_addr_buf: [const { MaybeUninit::uninit() }; 255],
-            sender_protocol_addr_buf: [const { MaybeUninit::uninit() }; 255],
-            target_hw_addr_buf: [const { MaybeUninit::uninit() }; 255],
-            target_protocol_addr_buf: [const { MaybeUninit::uninit() }; 255],
+            // the buffers are handed to the reader as `&mut [u8]` and
+            // must therefore be initialized
+            sender_hw_addr_buf: [MaybeUninit::new(0); 255],
+            sender_protocol_addr_buf: [MaybeUninit::new(0); 255],
+            target_hw_addr_buf: [MaybeUninit::new(0); 255],
+            target_protocol_addr_buf: [MaybeUninit::new(0); 255],
         };
 
         {
